@@ -114,6 +114,13 @@ KxSites == <<
   S("C13", "parse_digitally_signed_old", <<0, 0>>, << <<1, 2, 0>> >>, 0, <<>>, 0, "ok"),
   S("C13", "ECPoint::parse", <<0>>, << <<1, 1, 0>> >>, 0, <<4>>, 0, "ok"),
   S("C13", "parse_ecdh_params", <<3, 0, 29, 0>>, << <<4, 1, 0>> >>, 0, <<>>, 0, "ok"),
+  (* a public value is opaque whatever its first byte says: SEC1 format bytes 04 / 02 / 00 in front of every length *)
+  S("C13", "ECPoint::parse", <<0, 4>>, << <<1, 1, 0>> >>, 1, <<>>, 0, "ok"),
+  S("C13", "ECPoint::parse", <<0, 2>>, << <<1, 1, 0>> >>, 1, <<7>>, 0, "ok"),
+  S("C13", "parse_ecdh_params", <<3, 0, 29, 0, 4>>, << <<4, 1, 0>> >>, 1, <<>>, 0, "ok"),
+  S("C13", "parse_ecdh_params", <<3, 0, 30, 0, 4>>, << <<4, 1, 0>> >>, 1, <<4, 3, 0, 0>>, 0, "ok"),
+  S("C13", "parse_ecdh_params", <<3, 0, 23, 0, 0>>, << <<4, 1, 0>> >>, 1, <<>>, 0, "ok"),
+  S("C13", "parse_dh_params", <<0, 0, 0>>, << <<1, 2, 0>> >>, 1, <<0, 1, 2, 0, 1, 9>>, 6, "ok"),
   S("C13", "parse_ecdh_params", <<3, 0, 23, 0>>, << <<4, 1, 0>> >>, 0, <<4, 3, 0, 0>>, 0, "ok"),
   SA("C13", "parse_content_and_signature", [len |-> 0, ext |-> 1, ct |-> 0, ver |-> 0, sub |-> "ecdh"], -1, <<3, 0, 24, 2, 4, 5, 4, 3, 0, 0>>, << <<9, 2, 0>> >>, 0, <<>>, 0, "any"),
   SA("C13", "parse_content_and_signature", [len |-> 0, ext |-> 0, ct |-> 0, ver |-> 0, sub |-> "dh"], -1, <<0, 1, 5, 0, 1, 2, 0, 0>>, << <<7, 2, 0>> >>, 0, <<0, 2, 8, 8>>, 4, "any") >>
@@ -137,6 +144,7 @@ Lmax(s) == IF s.fields = <<>> THEN 65535 ELSE Min2(65535, Pow(s.fields[1][2]) - 
 (* the sampled residues: every domain is visited at the start, around every multiple of 256, at the DER-looking low bytes, *)
 (* around the record caps and at a seeded stride                                                                          *)
 Sampled(s, L) ==
+  \/ Lmax(s) <= 255                                  \* one-byte length fields: the whole domain
   \/ L <= Lmin(s) + (IF Thorough THEN 2048 ELSE 16)
   \/ (L % 256) \in {0, 130}
   \/ L \in 16383..16385 \/ L \in 16639..16641 \/ L >= 65533
